@@ -1,5 +1,5 @@
 (* C06, value level (Prop-level core): committing the rollback values recorded at validation undoes the commit of the
-   change, for every iteration order of every loop; what the rollback's candidate shows. *)
+   change, for every iteration order of every loop; the rollback's candidate shows the restored configuration. *)
 From Coq Require Import List Arith NArith Bool Lia Permutation.
 From OC Require Import Base.Bytes Model.P2Pure Proofs.P2PureRollbackBase Proofs.P2PureRollbackPrune
   Proofs.P2PureRollbackApply Proofs.P2PureRollbackAdc Proofs.P2PureRollbackStore Proofs.P2PureRollbackCommit
@@ -123,11 +123,6 @@ End Commit.
 (* an updated path has no live value beneath it (values live at leaves) *)
 Definition updates_are_leaves (V c : cmap) : Prop :=
   forall k u p x, lookup k c = Some u -> pv_deleted u = false -> lookup p V = Some x -> pv_deleted x = false -> ~ below p k.
-(* a deleted path that is not itself stored has no live value beneath it: deletes of leaves only *)
-Definition deletes_stored (V c : cmap) : Prop :=
-  forall d u, lookup d c = Some u -> pv_deleted u = true ->
-    lookup d V <> None \/ forall k x, lookup k V = Some x -> pv_deleted x = false -> ~ below k d.
-
 Record rollback_hyp (i j : N) (M V c : cmap) : Prop := {
   rh_M : nd M; rh_same : same V M; rh_V : wf V; rh_c : wf c;
   rh_clean : clean V;
@@ -250,64 +245,97 @@ Section Rollback.
       Qed.
     End WithSecond.
 
-    (** * the candidate the plugin validates for the rollback: plain overwrite of the view by the rollback values *)
-    Lemma candidate_lookup k :
-      lookup k (candidate_rb V1 rb) = match lookup k rb with Some r => Some r | None => lookup k V1 end.
-    Proof. change (candidate_rb V1 rb) with (overlay V1 rb). apply lookup_overlay. apply rb_facts. Qed.
+    (** * the candidate the plugin validates for the rollback (repaired by 3342112, finding F-24): the rollback values
+        are applied to the loaded view with applyChangeToConfig, in any order [rb'] of the Go map *)
+    Section Candidate.
+      Context (rb' : cmap) (R : rb_out V c rb').
 
-    Lemma candidate_wf : wf (candidate_rb V1 rb).
-    Proof.
-      pose proof (co_wf _ _ _ _ _ O1) as (N1 & K1 & P1). pose proof (ro_wf _ _ _ rb_facts) as (Nr & Kr & Pr).
-      change (candidate_rb V1 rb) with (overlay V1 rb).
-      assert (nd (overlay V1 rb)) as No by (apply nd_overlay; exact NV1).
-      split; [exact No|]. split.
-      - intros k v Hi. apply (in_lookup _ _ _ No) in Hi. rewrite lookup_overlay in Hi by exact Nr.
-        destruct (lookup k rb) as [r|] eqn:Er; [injection Hi as <-; exact (kp_lookup rb k r Kr Er)|].
-        rewrite SV1 in Hi. exact (kp_lookup m1 k v K1 Hi).
-      - intros k v Hi. apply (in_lookup _ _ _ No) in Hi. rewrite lookup_overlay in Hi by exact Nr.
-        destruct (lookup k rb) as [r|] eqn:Er; [exact (pk_lookup rb k r Pr Er)|].
-        rewrite SV1 in Hi. exact (pk_lookup m1 k v P1 Hi).
-    Qed.
+      Lemma rb'_tomb_not_above k e d rd :
+        lookup k V = Some e -> pv_deleted e = false -> lookup d rb' = Some rd -> pv_deleted rd = true -> ~ below k d.
+      Proof.
+        intros E1 E2 E3 E4 Hb. destruct (ro_from _ _ _ R d rd E3) as [E|(F1 & F2 & u & F3 & F4)].
+        - apply (rh_clean _ _ _ _ _ RH k e E1 E2). exists d. split; [exists rd; auto | exact Hb].
+        - apply (rh_leaves _ _ _ _ _ RH d u k e F3 F4 E1 E2 Hb).
+      Qed.
 
-    (* whatever the candidate shows was in the old view ... *)
-    Theorem candidate_shows_only_old k val : vis (candidate_rb V1 rb) k val -> vis V k val.
-    Proof.
-      intros (e & E1 & E2 & E3 & E4). rewrite candidate_lookup in E1. destruct (lookup k rb) as [r|] eqn:Er.
-      - injection E1 as ->. pose proof (rb_live k e Er E2) as Ev. exists e. repeat split; auto.
-        apply (rh_clean _ _ _ _ _ RH k e Ev E2).
-      - assert (vis V1 k val) as X.
-        { exists e. repeat split; auto. intros Hh. rewrite SV1 in E1. apply (co_clean _ _ _ _ _ O1 k e E1 E2).
-          eapply same_hidden; eauto. }
-        apply first_shows in X. destruct X as [(u & F1 & F2 & _)|(_ & _ & F3)]; [|exact F3].
-        exfalso. apply lookup_none in Er. apply Er. apply (ro_change _ _ _ rb_facts k u F1). auto.
-    Qed.
+      Lemma rb'_live k r : lookup k rb' = Some r -> pv_deleted r = false -> lookup k V = Some r.
+      Proof. intros E1 E2. destruct (ro_from _ _ _ R k r E1) as [E|(_ & -> & _)]; [exact E | discriminate]. Qed.
 
-    (* ... and it shows all of it when no container (a path that is not itself stored) was deleted *)
-    Theorem candidate_shows_old k val : deletes_stored V c -> vis V k val -> vis (candidate_rb V1 rb) k val.
-    Proof.
-      intros DS (e & E1 & E2 & E3 & E4).
-      assert (exists e', lookup k (candidate_rb V1 rb) = Some e' /\ pv_deleted e' = false /\ pv_val e' = val) as (e' & C1 & C2 & C3).
-      { rewrite candidate_lookup. destruct (lookup k rb) as [r|] eqn:Er.
-        - destruct (ro_from _ _ _ rb_facts k r Er) as [E|(E & _)]; [|congruence]. exists r.
-          assert (r = e) as -> by congruence. auto.
-        - destruct (untouched k e E1 E2 Er) as (U1 & U2).
-          assert (vis V1 k val) as (e' & X1 & X2 & X3 & _); [|eauto].
-          apply first_shows. right. split; [exact U1|]. split; [exact U2|]. exists e. auto. }
-      exists e'. repeat split; auto.
-      intros (t & (et & T1 & T2) & T3). rewrite candidate_lookup in T1. destruct (lookup t rb) as [rt|] eqn:Ert.
-      - injection T1 as ->. apply (rb_tomb_not_above k e t et E1 E2 Ert T2 T3).
-      - rewrite SV1 in T1. apply (co_some _ _ _ _ _ O1) in T1. destruct T1 as (T1 & Nh).
-        destruct (st_tomb i V c st1 m1 O1 t et T1 T2) as [(ut & F1 & F2)|[(F1 & F2)|(F1 & F2 & F3)]].
-        + destruct (DS t ut F1 F2) as [D|D].
-          * apply lookup_none in Ert. apply Ert. apply (ro_change _ _ _ rb_facts t ut F1). auto.
-          * apply (D k e E1 E2 T3).
-        + (* a cascaded child is not stored *)
-          apply Nh. apply cascb_spec in F1. destruct F1 as (d & cv & G1 & G2 & G3).
-          pose proof (rh_c _ _ _ _ _ RH) as (Nc & Kc & Pc). rewrite (Kc _ _ G1) in G3.
-          destruct (co_del _ _ _ _ _ O1 d cv (in_lookup _ _ _ Nc G1) G2) as (ed & D1 & D2 & _).
-          exists d. split; [exists ed; auto | exact G3].
-        + apply E4. exists t. split; [exists et; auto | exact T3].
-    Qed.
+      Lemma untouched' k e : lookup k V = Some e -> pv_deleted e = false -> lookup k rb' = None ->
+        lookup k c = None /\ cascb c k = false.
+      Proof.
+        intros E1 E2 E3. apply lookup_none in E3. split.
+        - destruct (lookup k c) as [u|] eqn:Ec; [|reflexivity]. exfalso. apply E3.
+          apply (ro_change _ _ _ R k u Ec). right. congruence.
+        - destruct (cascb c k) eqn:Ecas; [|reflexivity]. exfalso. apply E3. eapply (ro_kids _ _ _ R); eauto.
+      Qed.
+
+      Lemma wf_V1 : wf V1.
+      Proof.
+        pose proof (co_wf _ _ _ _ _ O1) as (N1 & K1 & P1).
+        split; [exact NV1|]. split; [eapply (same_kp m1) | eapply (same_pk m1)]; eauto using same_sym.
+      Qed.
+
+      Lemma candidate_spec :
+        wf (candidate_rb V1 rb') /\
+        forall k, lookup k (candidate_rb V1 rb') =
+                  match lookup k rb' with
+                  | Some u => Some u
+                  | None => if is_tombb V1 k && live_below rb' k then None else lookup k V1
+                  end.
+      Proof.
+        change (candidate_rb V1 rb') with (apply_loop rb' V1). apply apply_loop_spec; [apply R | exact wf_V1|].
+        intros p u t e I1 D1 I2 D2. pose proof (ro_wf _ _ _ R) as (Nr & _).
+        apply (in_lookup _ _ _ Nr) in I1. apply (in_lookup _ _ _ Nr) in I2.
+        apply (rb'_tomb_not_above p u t e (rb'_live p u I1 D1) D1 I2 D2).
+      Qed.
+
+      Theorem candidate_shows k val : vis (candidate_rb V1 rb') k val <-> vis V k val.
+      Proof.
+        destruct candidate_spec as (_ & L). split.
+        - intros (e & E1 & E2 & E3 & E4). rewrite L in E1. destruct (lookup k rb') as [r|] eqn:Er.
+          + injection E1 as ->. pose proof (rb'_live k e Er E2) as Ev. exists e. repeat split; auto.
+            apply (rh_clean _ _ _ _ _ RH k e Ev E2).
+          + destruct (is_tombb V1 k && live_below rb' k); [discriminate|].
+            assert (vis V1 k val) as X.
+            { exists e. repeat split; auto. intros Hh. rewrite SV1 in E1. apply (co_clean _ _ _ _ _ O1 k e E1 E2).
+              eapply same_hidden; eauto. }
+            apply first_shows in X. destruct X as [(u & F1 & F2 & _)|(_ & _ & F3)]; [|exact F3].
+            exfalso. apply lookup_none in Er. apply Er. apply (ro_change _ _ _ R k u F1). auto.
+        - intros (e & E1 & E2 & E3 & E4).
+          assert (exists e', lookup k (candidate_rb V1 rb') = Some e' /\ pv_deleted e' = false /\ pv_val e' = val)
+            as (e' & C1 & C2 & C3).
+          { rewrite L. destruct (lookup k rb') as [r|] eqn:Er.
+            - destruct (ro_from _ _ _ R k r Er) as [E|(E & _)]; [|congruence]. exists r.
+              assert (r = e) as -> by congruence. auto.
+            - destruct (untouched' k e E1 E2 Er) as (U1 & U2).
+              assert (vis V1 k val) as (e' & X1 & X2 & X3 & _).
+              { apply first_shows. right. split; [exact U1|]. split; [exact U2|]. exists e. auto. }
+              exists e'. unfold is_tombb. rewrite X1, X2. cbn. auto. }
+          exists e'. repeat split; auto.
+          intros (t & (et & T1 & T2) & T3). rewrite L in T1. destruct (lookup t rb') as [rt|] eqn:Ert.
+          + injection T1 as ->. apply (rb'_tomb_not_above k e t et E1 E2 Ert T2 T3).
+          + destruct (is_tombb V1 t && live_below rb' t) eqn:Dr; [discriminate|].
+            assert (live_below rb' t = false) as LB.
+            { unfold is_tombb in Dr. rewrite T1, T2 in Dr. exact Dr. }
+            rewrite SV1 in T1. apply (co_some _ _ _ _ _ O1) in T1. destruct T1 as (T1 & Nh).
+            destruct (st_tomb i V c st1 m1 O1 t et T1 T2) as [(ut & F1 & F2)|[(F1 & F2)|(F1 & F2 & F3)]].
+            * (* a delete of the change at [t]: the restored value beneath it is a live rollback value, which drops it *)
+              assert (cascb c k = true) as Ck.
+              { apply cascb_spec. exists t, ut. split; [apply lookup_in; exact F1|]. split; [exact F2|].
+                rewrite (kp_lookup c t ut (proj1 (proj2 (rh_c _ _ _ _ _ RH))) F1). exact T3. }
+              pose proof (ro_kids _ _ _ R k e E1 E2 Ck) as Hk. apply in_key_lookup in Hk. destruct Hk as (r & Er).
+              destruct (ro_from _ _ _ R k r Er) as [E|(E & _)]; [|congruence].
+              assert (r = e) as -> by congruence.
+              assert (live_below rb' t = true) as X; [|congruence].
+              apply live_below_spec. exists k, e. split; [apply lookup_in; exact Er | auto].
+            * apply Nh. apply cascb_spec in F1. destruct F1 as (d & cv & G1 & G2 & G3).
+              pose proof (rh_c _ _ _ _ _ RH) as (Nc & Kc & Pc). rewrite (Kc _ _ G1) in G3.
+              destruct (co_del _ _ _ _ _ O1 d cv (in_lookup _ _ _ Nc G1) G2) as (ed & D1 & D2 & _).
+              exists d. split; [exists ed; auto | exact G3].
+            * apply E4. exists t. split; [exists et; auto | exact T3].
+      Qed.
+    End Candidate.
   End WithFirst.
 End Rollback.
 
@@ -345,33 +373,31 @@ Proof.
     rewrite (rh_same _ _ _ _ _ RH) in Ev. pose proof (rh_older _ _ _ _ _ RH _ _ Ev). lia.
 Qed.
 
-Theorem rollback_candidate_only_old i j ord1 M V c V1 :
+(* any other iteration order of the same rollback values *)
+Lemma rb_out_same V c rb rb' : rb_out V c rb -> nd rb' -> same rb' rb -> rb_out V c rb'.
+Proof.
+  intros [(Nr & Kr & Pr) R2 R3 R4] N S. constructor.
+  - split; [exact N|]. split; [eapply (same_kp rb) | eapply (same_pk rb)]; eauto using same_sym.
+  - intros k r E. rewrite S in E. auto.
+  - intros k u E1 E2. destruct (in_key_lookup _ _ (R3 k u E1 E2)) as (r & Er). rewrite <- S in Er. eapply lookup_some_key; eauto.
+  - intros k x E1 E2 E3. destruct (in_key_lookup _ _ (R4 k x E1 E2 E3)) as (r & Er). rewrite <- S in Er. eapply lookup_some_key; eauto.
+Qed.
+
+(* the candidate validated for the rollback shows exactly the old view: the verdict is taken on the configuration the
+   rollback restores *)
+Theorem rollback_candidate i j ord1 M V c V1 rb' :
   rollback_hyp i j M V c ->
   let rb := rollback_of V c in
   let m1 := commit_merge ord1 i M V c in
-  nd V1 -> same V1 m1 ->
-  forall k val, In (k, val) (live (candidate_rb V1 rb)) -> In (k, val) (live V).
+  nd V1 -> same V1 m1 -> nd rb' -> same rb' rb ->
+  live (candidate_rb V1 rb') = live V.
 Proof.
-  intros RH rb m1 N1 S1 k val Hi.
+  intros RH rb m1 N1 S1 Nr Sr.
   destruct (commit_spec ord1 i M V c (rollback_commit_hyp i j M V c RH)) as (st1 & O1).
-  apply (live_in V k val (rh_V _ _ _ _ _ RH)).
-  apply (candidate_shows_only_old i j ord1 M V c V1 RH S1 st1 O1).
-  apply (live_in _ k val (candidate_wf i j ord1 M V c V1 RH N1 S1 st1 O1)). exact Hi.
-Qed.
-
-Theorem rollback_candidate i j ord1 M V c V1 :
-  rollback_hyp i j M V c -> deletes_stored V c ->
-  let rb := rollback_of V c in
-  let m1 := commit_merge ord1 i M V c in
-  nd V1 -> same V1 m1 ->
-  live (candidate_rb V1 rb) = live V.
-Proof.
-  intros RH DS rb m1 N1 S1.
-  destruct (commit_spec ord1 i M V c (rollback_commit_hyp i j M V c RH)) as (st1 & O1).
-  apply live_ext; [apply (candidate_wf i j ord1 M V c V1 RH N1 S1 st1 O1) | apply RH|].
-  intros k val. split.
-  - apply (candidate_shows_only_old i j ord1 M V c V1 RH S1 st1 O1).
-  - apply (candidate_shows_old i j ord1 M V c V1 RH S1 st1 O1 k val DS).
+  assert (rb_out V c rb') as R.
+  { eapply rb_out_same; [apply rollback_of_spec; apply RH | exact Nr | exact Sr]. }
+  apply live_ext; [apply (candidate_spec i j ord1 M V c V1 RH N1 S1 st1 O1 rb' R) | apply RH|].
+  apply (candidate_shows i j ord1 M V c V1 RH N1 S1 st1 O1 rb' R).
 Qed.
 
 (* the stored map after the rollback's commit is well formed again *)
